@@ -53,16 +53,23 @@ let parse_op_with (value : string -> 'a) o : 'a M.op =
 let parse_op o : int M.op = parse_op_with int_of_string o
 let parse_uop o : unit M.op = parse_op_with (fun _ -> ()) o
 
+(* T<letter> lines: queue.Queue at another element type (byte, bool, int16, [3]byte, float32, *int,
+   string, a 40-byte struct; harness/cmd/queuetrace/typed.go).  Elements travel as integer codes
+   (0 = the zero value) and the model is polymorphic in the element type, so a T line is replayed
+   exactly as an H line; the capacities append chose for THAT type are the oracle annotations. *)
+let is_kind k = k = "H" || k = "U" || k = "B" || k = "X" || (String.length k = 2 && k.[0] = 'T' && k.[1] >= 'a' && k.[1] <= 'z')
+
 let parse_input inp =
   match words inp with
-  | [("H" | "U" | "B"); i; ops] ->
+  | [k; i; ops] when is_kind k ->
     let ops = if ops = "-" then [] else List.filter (fun x -> x <> "") (String.split_on_char ';' ops) in
     (i, ops)
-  | [("H" | "U" | "B"); i] -> (i, [])
+  | [k; i] when is_kind k -> (i, [])
   | _ -> failwith "bad input"
 
 let is_u inp = String.length inp > 0 && inp.[0] = 'U'
 let is_b inp = String.length inp > 0 && inp.[0] = 'B'
+let is_x inp = String.length inp > 0 && inp.[0] = 'X'
 
 let show_ret = function
   | M.RUnit -> "-"
@@ -90,6 +97,25 @@ let public_part (obs : int M.op -> int M.out) =
   Printf.sprintf "%d,%s/%d/%s/%s/%s/%s" len (b01 empty) front
     (if slice = [] then "nil" else str_ints slice) (str_ints all) (str_ints half) (String.concat "," peeks)
 
+(* op e: re-entrant and interleaved iteration (typed.go).  One Each whose callback observes the same
+   queue at every element (Len, IsEmpty, Front, Peek i, Peek -1, a nested complete Each, Slice), then
+   two pulled iterations advanced in turns.  Every traversal must yield what it yields alone, so the
+   text is a function of the unchanged state, rendered from any observer. *)
+let seq_text l = if l = [] then "." else String.concat "~" (List.map string_of_int l)
+
+let reentrant_text (obs : int M.op -> int M.out) =
+  let len = match obs M.OLen with M.RInt z -> int_of_z z | _ -> failwith "len" in
+  let empty = match obs M.OIsEmpty with M.RBool b -> b | _ -> failwith "empty" in
+  let front = match obs M.OFront with M.RElem v -> v | _ -> failwith "front" in
+  let lst = function M.RList l -> l | _ -> failwith "list" in
+  let all = lst (obs (M.OEach (nat_of_int (len + 1)))) in
+  let slice = lst (obs M.OSlice) in
+  let part i v =
+    Printf.sprintf "%d(%d,%s,%d,%s,%s,%s,%s)" v len (b01 empty) front
+      (show_peek (obs (M.OPeek (z_of_int i)))) (show_peek (obs (M.OPeek (z_of_int (-1)))))
+      (seq_text all) (seq_text slice) in
+  "E" ^ String.concat "+" (List.mapi part all) ^ "|" ^ seq_text all ^ "|" ^ seq_text all
+
 let model_record q ret =
   let obs o = snd (get (M.step64 zero q o)) in
   let ((h, n), c) = M.hook_state q in
@@ -102,9 +128,13 @@ let eval_h inp =
     let q = ref (get (M.mk_init zero (parse_init i))) in
     recs := model_record !q "-" :: !recs;
     List.iter (fun o ->
-      let (q', r) = get (M.step64 zero !q (parse_op o)) in
-      q := q';
-      recs := model_record q' (show_ret r) :: !recs) ops
+      if o = "e" then
+        recs := model_record !q (reentrant_text (fun o -> snd (get (M.step64 zero !q o)))) :: !recs
+      else begin
+        let (q', r) = get (M.step64 zero !q (parse_op o)) in
+        q := q';
+        recs := model_record q' (show_ret r) :: !recs
+      end) ops
   with Stop s -> recs := s :: !recs);
   String.concat ";" (List.rev !recs)
 
@@ -137,9 +167,14 @@ let spec_h inp out =
       | [], _ :: _ -> Some "more records than operations"
       | _ :: _, [] -> Some (Printf.sprintf "history ended after %d operations (record missing)" k)
       | o :: ops', r :: recs' ->
-        let (l', ret) = M.spec_step zero !l (parse_op o) in
-        l := l';
-        (match check (Printf.sprintf "after op #%d (%s)" (k + 1) o) r (expect (show_ret ret)) with
+        let ret =
+          if o = "e" then reentrant_text (fun o -> snd (M.spec_step zero !l o))
+          else begin
+            let (l', ret) = M.spec_step zero !l (parse_op o) in
+            l := l';
+            show_ret ret
+          end in
+        (match check (Printf.sprintf "after op #%d (%s)" (k + 1) o) r (expect ret) with
          | Some e -> Some e
          | None -> go (k + 1) ops' recs') in
     (match recs with
@@ -217,6 +252,50 @@ let reference_machine () =
     set_caps = (fun _ -> ());
     hook = (fun () -> "") }
 
+(* A direct double-ended sequence (an array with room at both ends, re-centred when an end is
+   reached; no ring, no wrap-around): the reference for X lines, i.e. B histories on 2^15 .. 2^16+1
+   slots, where the list-based extracted reference (Add = l ++ [v]) would take minutes and the
+   extracted model hours.  It answers the same ops with the same meaning as QueueSpec.spec_step; on
+   every B line of modest size the two are run in lockstep ([checked_reference]) and any
+   difference between them is reported as a failure of that line. *)
+let fast_machine () =
+  let cap = ref 1024 in
+  let a = ref (Array.make !cap 0) in
+  let lo = ref 512 and hi = ref 512 in                (* the elements are a.(lo) .. a.(hi-1) *)
+  let recenter () =
+    let n = !hi - !lo in
+    let ncap = max 1024 (4 * (n + 1)) in
+    let b = Array.make ncap 0 in
+    let nlo = (ncap - n) / 2 in
+    Array.blit !a !lo b nlo n; a := b; cap := ncap; lo := nlo; hi := nlo + n in
+  let sub i n = List.init (max 0 n) (fun k -> !a.(i + k)) in
+  { op = (fun o ->
+      let n = !hi - !lo in
+      match o with
+      | M.OAdd (v, _) -> if !hi >= !cap then recenter (); !a.(!hi) <- v; incr hi; M.RUnit
+      | M.OPush (v, _) -> if !lo <= 0 then recenter (); decr lo; !a.(!lo) <- v; M.RUnit
+      | M.OPop -> if n = 0 then M.RVal (zero, false) else begin let v = !a.(!lo) in incr lo; M.RVal (v, true) end
+      | M.OPopLast -> if n = 0 then M.RVal (zero, false) else begin decr hi; M.RVal (!a.(!hi), true) end
+      | M.OClear -> lo := !cap / 2; hi := !lo; M.RUnit
+      | M.OLen -> M.RInt (z_of_int n)
+      | M.OIsEmpty -> M.RBool (n = 0)
+      | M.OFront -> M.RElem (if n = 0 then zero else !a.(!lo))
+      | M.OPeek k ->
+        let k = int_of_z k in
+        let k = if k < 0 then k + n else k in
+        if k < 0 || k >= n then M.RVal (zero, false) else M.RVal (!a.(!lo + k), true)
+      | M.OSlice -> M.RList (sub !lo n)
+      | M.OEach m -> M.RList (sub !lo (min n (int_of_nat m + 1))));   (* the recording callback answers false on call m+1 *)
+    set_caps = (fun _ -> ());
+    hook = (fun () -> "") }
+
+(* the extracted reference and the direct sequence side by side; the extracted one answers *)
+let checked_reference () =
+  let r = reference_machine () and f = fast_machine () in
+  { op = (fun o -> let x = r.op o and y = f.op o in if x <> y then raise (Stop "reference-implementations-disagree"); x);
+    set_caps = (fun _ -> ());
+    hook = (fun () -> "") }
+
 let parse_bop o =
   match String.split_on_char '^' o with
   | body :: caps when body <> "" ->
@@ -285,8 +364,15 @@ let eval_b inp =
   let (i, ops) = parse_input inp in
   let recs = ref [] in
   (try
-    let q = get (M.mk_init zero (b_init i)) in
-    run_b (model_machine q) ops (fun r -> recs := r :: !recs)
+    if is_x inp then begin
+      (* X lines: spec only -- the model is not run (see fast_machine); the prediction is the
+         reference's rendering, records without the hook field *)
+      (match b_init i with M.ISize (M.Zneg _) -> raise (Stop "panic:index") | _ -> ());
+      run_b (fast_machine ()) ops (fun r -> recs := r :: !recs)
+    end else begin
+      let q = get (M.mk_init zero (b_init i)) in
+      run_b (model_machine q) ops (fun r -> recs := r :: !recs)
+    end
   with Stop s -> recs := s :: !recs);
   String.concat ";" (List.rev !recs)
 
@@ -297,9 +383,12 @@ let spec_b inp out =
   let (i, ops) = parse_input inp in
   match (try Some (b_init i) with Stop _ -> None) with
   | None | Some (M.ISize (M.Zneg _)) -> None
-  | Some _ ->
+  | Some init ->
     let want = ref [] in
-    (try run_b (reference_machine ()) ops (fun r -> want := r :: !want) with Stop _ -> ());
+    let x = is_x inp in
+    let small = (match init with M.ISize k -> int_of_z k <= 600 | _ -> true) && String.length inp < 400 in
+    let machine = if x then fast_machine () else if small then checked_reference () else reference_machine () in
+    (try run_b machine ops (fun r -> want := r :: !want) with Stop e -> want := e :: !want);
     let want = List.rev !want in
     let recs = if out = "" then [] else String.split_on_char ';' out in
     let opname k = if k = 0 then "after construction" else Printf.sprintf "after op #%d (%s)" k (try List.nth ops (k - 1) with _ -> "?") in
@@ -309,7 +398,7 @@ let spec_b inp out =
       | [], r :: _ -> if r = "bad-op" then None else Some "more records than operations"
       | _ :: _, [] -> Some (Printf.sprintf "history ended after %d operations (record missing)" (max 0 (k - 1)))
       | w :: want', r :: recs' ->
-        let got = match public_of_record r with Some (ret, pub) -> ret ^ "/" ^ pub | None -> r in
+        let got = if x then r else match public_of_record r with Some (ret, pub) -> ret ^ "/" ^ pub | None -> r in
         if got = w then go (k + 1) want' recs'
         else Some (Printf.sprintf "%s: observables %s differ from the reference sequence's %s (ret/Len,IsEmpty/Front/Peek(-1) or o/Len,IsEmpty/Front/Slice/Each/Each-stopped/digest of all Peeks/Peeks; sequences as count:fnv:sample)" (opname k) got w) in
     go 0 want recs
@@ -358,7 +447,7 @@ let eval inp =
   let (i, _) = parse_input inp in
   if alloc_refused i then "panic:index"
   else if is_u inp then eval_u_with M.ustep64 inp
-  else if is_b inp then eval_b inp else eval_h inp
+  else if is_b inp || is_x inp then eval_b inp else eval_h inp
 
 (* the reference for U lines: the same plain list, of units *)
 let spec_u_plain inp out =
@@ -433,7 +522,7 @@ let spec prop inp out =
   if prop <> "C07" then None
   else if alloc_refused (fst (parse_input inp)) then None     (* no queue came into being; nothing is demanded *)
   else if is_u inp then spec_u inp out
-  else if is_b inp then spec_b inp out
+  else if is_b inp || is_x inp then spec_b inp out
   else spec_h inp out
 
 let () = run_main ~eval ~spec
